@@ -252,6 +252,64 @@ class OpenOnOpenWorkspace(Contract):
         ctx.oblige("returns-the-workspace", result is me)
 
 
+class OpenMode(Contract):
+    """open(mode): the file is opened with the requested mode, or with the mode the workspace was
+    constructed with when none is requested; only a failing open falls back, and then to read-only
+    (never to a wider mode than asked for)."""
+    target = "geoh5py/workspace/workspace.py::Workspace.open"
+    variant = "mode"
+    props = ("C10", "C11")
+    lenient = True
+
+    def cases(self):
+        return [(req, ctor, fails) for req in (None, "r", "r+") for ctor in ("r", "r+", "a") for fails in (False, True)]
+
+    def setup(self, ctx):
+        import h5py
+
+        from geoh5py.workspace import Workspace
+
+        req, ctor, fails = ctx.case
+        me = Opaque("self", cls=Workspace)
+        me.attrs["_geoh5"] = None
+        me.attrs["_mode"] = ctor
+        me.attrs["h5file"] = "/data/p.geoh5"
+        me.attrs["_io_call"] = Opaque("_io_call")
+        me.attrs["_io_call"].maybe_method = lambda I, a, kw: PDict({})
+        me.attrs["fetch_or_create_root"] = Opaque("fetch_or_create_root")
+        me.attrs["fetch_or_create_root"].maybe_method = lambda I, a, kw: None
+        opened = []
+
+        def hook(I, cls, a, kw):
+            if cls is h5py.File:
+                mode = a[1] if len(a) > 1 else kw.get("mode", "r")
+                opened.append(mode)
+                if fails and len(opened) == 1:
+                    I.raise_(OSError)
+                h = Opaque("handle", cls=h5py.File)
+                h.attrs["mode"] = mode
+                return h
+            return None
+
+        ctx.env.update(me=me, opened=opened, construct_hook=hook)
+        return [me], ({} if req is None else {"mode": req})
+
+    def post(self, ctx, result):
+        req, ctor, fails = ctx.case
+        opened = ctx.env["opened"]
+        want = req if req is not None else ctor
+        ctx.oblige("the-file-is-first-opened-with-the-requested-or-constructed-mode", bool(opened) and opened[0] == want, note=f"requested {req!r}, constructed with {ctor!r}, opened with {opened[:1]}")
+        if fails:
+            ctx.oblige("a-failed-open-falls-back-to-read-only-only", opened[1:] == ["r"])
+        else:
+            ctx.oblige("a-successful-open-is-not-repeated", len(opened) == 1)
+        h = ctx.env["me"].attrs.get("_geoh5")
+        ctx.oblige("the-handle-kept-is-the-one-opened-last", isinstance(h, Opaque) and h.attrs.get("mode") == (opened[-1] if opened else None))
+
+    def post_raises(self, ctx, sig):
+        ctx.oblige("open-does-not-raise-when-the-fallback-succeeds", False, kind="post-exc", note=f"{sig.exc_class.__name__}")
+
+
 class OpenResetsRegistries(Contract):
     """Workspace.open starts from empty registries for all five kinds (nothing of an earlier
     session of the same object survives)."""
@@ -323,4 +381,4 @@ for _k in ALL_OF:
     globals()[_k.__name__] = _k
 
 
-CONTRACTS = ALL_OF + [ParentSet, PropertyGroupRemove, PropertyGroupAdd, AddSaveConcatenated, OpenResetsRegistries, OpenOnOpenWorkspace]
+CONTRACTS = ALL_OF + [ParentSet, PropertyGroupRemove, PropertyGroupAdd, AddSaveConcatenated, OpenResetsRegistries, OpenOnOpenWorkspace, OpenMode]
